@@ -43,12 +43,12 @@ package finalizers
 // builder carry sub, iss, iat, nbf and exp = iat + ttl whatever the custom claims contain.
 //@ func (*jwtSigner).Sign
 //@   props C16
-//@   assert at call NewSigner#1: callarg0.Algorithm == old(s.jwk.Algorithm) && callarg0.Key == iface(old(s.key))
-//@   assert at call WithHeader#1: callarg1 == "kid" && callarg2 == iface(old(s.jwk.KeyID))
-//@   assert at call WithHeader#2: callarg1 == "alg" && callarg2 == iface(old(s.jwk.Algorithm))
-//@   assert at call Claims#1: typeIs(callarg1, "map[string]any")
-//@   assert at call Claims#1: has(unbox(callarg1, "map[string]any"), "sub")
-//@   assert at call Claims#1: unbox(callarg1, "map[string]any")["sub"] == iface(sub)
-//@   assert at call Claims#1: unbox(callarg1, "map[string]any")["iss"] == iface(s.iss)
-//@   assert at call Claims#1: tnow.n > old(tnow.n) && unbox(callarg1, "map[string]any")["iat"] == unbox(callarg1, "map[string]any")["nbf"] && typeIs(unbox(callarg1, "map[string]any")["iat"], int64) && unbox(unbox(callarg1, "map[string]any")["iat"], int64) == unixsec(unixnano(tnow.ret0[tnow.n - 1]))
-//@   assert at call Claims#1: typeIs(unbox(callarg1, "map[string]any")["exp"], int64) && (unixnano(tnow.ret0[tnow.n - 1]) + ttl >= 0 ==> unbox(unbox(callarg1, "map[string]any")["exp"], int64) == unixsec(unixnano(tnow.ret0[tnow.n - 1]) + ttl))
+//@   assert at call NewSigner#1@fcfa0814.1: callarg0.Algorithm == old(s.jwk.Algorithm) && callarg0.Key == iface(old(s.key))
+//@   assert at call WithHeader#1@b9f14be3.1: callarg1 == "kid" && callarg2 == iface(old(s.jwk.KeyID))
+//@   assert at call WithHeader#2@4ac0d60b.1: callarg1 == "alg" && callarg2 == iface(old(s.jwk.Algorithm))
+//@   assert at call Claims#1@030f806e.1: typeIs(callarg1, "map[string]any")
+//@   assert at call Claims#1@030f806e.1: has(unbox(callarg1, "map[string]any"), "sub")
+//@   assert at call Claims#1@030f806e.1: unbox(callarg1, "map[string]any")["sub"] == iface(sub)
+//@   assert at call Claims#1@030f806e.1: unbox(callarg1, "map[string]any")["iss"] == iface(s.iss)
+//@   assert at call Claims#1@030f806e.1: tnow.n > old(tnow.n) && unbox(callarg1, "map[string]any")["iat"] == unbox(callarg1, "map[string]any")["nbf"] && typeIs(unbox(callarg1, "map[string]any")["iat"], int64) && unbox(unbox(callarg1, "map[string]any")["iat"], int64) == unixsec(unixnano(tnow.ret0[tnow.n - 1]))
+//@   assert at call Claims#1@030f806e.1: typeIs(unbox(callarg1, "map[string]any")["exp"], int64) && (unixnano(tnow.ret0[tnow.n - 1]) + ttl >= 0 ==> unbox(unbox(callarg1, "map[string]any")["exp"], int64) == unixsec(unixnano(tnow.ret0[tnow.n - 1]) + ttl))
